@@ -311,8 +311,17 @@ func evalCase(c *hcase, rep reporter) bool {
 		panic(fmt.Sprintf("reference SetupS failed on a valid case: %v (%s)", err, c))
 	}
 	enc, sealer, err := senderSetup(cs, c.Mode, pkR, c.Info, c.Psk, c.PskID, skS, c.IkmE)
+	if err != nil && isPSK(c.Mode) && len(c.Psk) < 32 {
+		// RFC 9180 section 5.1.2 wants a PSK of at least 32 bytes of entropy; the pseudo-code does not enforce a
+		// length and neither does circl, but an implementation that refuses a shorter PSK is not wrong: only counted.
+		vlib.Class(sub, "short-psk:rejected")
+		return true
+	}
 	if err != nil {
 		return rep("C07/setup/"+kn+"/"+modeName[c.Mode]+"/sender-error", fmt.Sprintf("%v; case %s", err, c))
+	}
+	if isPSK(c.Mode) && len(c.Psk) < 32 {
+		vlib.Class(sub, "short-psk:accepted")
 	}
 	if !bytes.Equal(enc, renc) {
 		return rep("C07/enc/"+kn+"/"+modeName[c.Mode], fmt.Sprintf("circl %s, RFC 9180 %s; case %s", vlib.Hex(enc), vlib.Hex(renc), c))
@@ -665,7 +674,7 @@ func TestC07Grid(t *testing.T) {
 	for _, id := range rhpke.KEMIDs() {
 		id := id
 		t.Run(kemName(id), func(t *testing.T) {
-			n := vlib.N(500, 4000) / kemCost[id]
+			n := vlib.N(500, 3000) / kemCost[id]
 			vlib.Check(t, n, func(t *rapid.T) {
 				c := drawCase(t, id)
 				evalCase(c, func(key, detail string) bool { return vlib.Report(t, key, detail) })
